@@ -13,7 +13,6 @@ from vf import explore, harness
 from vf.data import Scenario
 
 from tartiflette import Directive, Resolver, Scalar, create_engine
-from tartiflette.schema.registry import SchemaRegistry
 
 PROPERTY = "C13"
 LEVEL = "model_checking"
@@ -329,7 +328,7 @@ def run_shard(item):
                     "summary": "%s: placement %r request %s vars=%r -> %r\n log      %r\n expected %r (data %r)" % (
                         clause, p, req["text"], req["vars"], resp, log, logs[0], datas[0]),
                     "replay": {"placement": list(p), "request": req["text"]}})
-        SchemaRegistry._schemas.pop(name, None)
+        harness.forget(name)
     if k == 0:
         out["samples"].append({"placement": list(ps[-1]) if ps else [], "sdl": sdl_for(ps[-1]) if ps else "", "requests": [r["text"] for r in reqs[:5]]})
     return out
